@@ -327,8 +327,10 @@ class CurveFitting(object):
         sy = self._T
         sx2 = self._Q
         sy2 = self._W
-        return ((n * sxy - sx * sy) / (sqrt(n * sx2 - sx * sx)
-                                       * sqrt(n * sy2 - sy * sy)))
+        r = ((n * sxy - sx * sy) / (sqrt(n * sx2 - sx * sx)
+                                    * sqrt(n * sy2 - sy * sy)))
+        # Rounding may leave |r| a few units of the last places above 1
+        return max(-1.0, min(1.0, r))
 
     def linear_fitting(self):
         """This method returns a tuple with the 'a', 'b' coefficients of the
